@@ -236,7 +236,7 @@ fn occ_model(spaces: &[(usize, usize, usize, usize)], sched_profiles: &[(usize, 
         m.schedules.week.push(ScheduleWeek { id: uid(&format!("wh{k}")), name: format!("wh{k}"), values: vec![(uid(&format!("de{k}")), 7)], ..Default::default() });
         // summer holiday period in the middle: three periods partitioning 365
         m.schedules.year.push(Schedule { id: uid(&format!("y{k}")), name: format!("y{k}"), values: vec![(uid(&format!("wk{k}")), 181), (uid(&format!("wh{k}")), 31), (uid(&format!("wk{k}")), 153)], ..Default::default() });
-        m.loads.push(SpaceLoads { id: uid(&format!("l{k}")), name: format!("l{k}"), area_per_person: 10.0, people_schedule: Some(uid(&format!("y{k}"))), people_sensible: 6.0 + k as f32, people_latent: 3.0, equipment: 4.4, equipment_schedule: Some(uid(&format!("y{}", (k + 1) % sched_profiles.len()))), lighting: 2.5 * (k + 1) as f32, lighting_schedule: Some(uid(&format!("y{k}"))), ..Default::default() });
+        m.loads.push(SpaceLoads { id: uid(&format!("l{k}")), name: format!("l{k}"), area_per_person: 10.0, people_schedule: if k >= 1 && k + 1 == sched_profiles.len() { None } else { Some(uid(&format!("y{k}"))) }, people_sensible: 6.0 + k as f32, people_latent: 3.0, equipment: 4.4, equipment_schedule: Some(uid(&format!("y{}", (k + 1) % sched_profiles.len()))), lighting: 2.5 * (k + 1) as f32, lighting_schedule: Some(uid(&format!("y{k}"))), ..Default::default() });
     }
     for (i, (kind, inside, mult, sch)) in spaces.iter().enumerate() {
         let mut s = space(&format!("s{i}"), kinds[*kind], *inside == 0, 3.0);
@@ -478,7 +478,7 @@ pub fn run(ctx: &Ctx) -> i32 {
     ctx.nontriv(tot);
     ctx.finish(
         "model_checking",
-        "(a) SchedulesDb::get_year_as_day_sch on all 1-, 2- and 3-period partitions of 365 days (1 + 364 + 66066) x weekly patterns {7 distinct days, 5+2, one day x7, 1+1+5} per period (all 4^k combinations; 4 fixed combinations for 3 periods in quick), the 12 calendar months and all 2^11 merges of adjacent months: day n takes slot n mod 7 of its period's week, and for every 16th case the history expand -> weekly schedules edited in place (also on a clone) -> expand; (b) BDL SCHEDULE-PD / WEEK-SCHEDULE-PD / DAY-SCHEDULE-PD documents through Data::new + Model::try_from: every end date 1..365, every pair (d,31 Dec), every triple (a,b,31 Dec) (every 11th in quick), all 3^7 weekly name lists, daily lists of 24 and of 1 value: period lengths from a calendar table, runs cover 7 days, 24 values, weekday alignment; (c) occupancy on 1..3 spaces x kind x inside x multiplier x all set partitions of schedule sharing x daily profiles {zero, one, morning, evening, 1e-6, negative} (4..6 spaces: star/chain): occupied hours = count of hours with any non-zero occupancy, mean load = area-weighted mean of schedule-averaged loads; all cases distinct by construction",
+        "(a) SchedulesDb::get_year_as_day_sch on all 1-, 2- and 3-period partitions of 365 days (1 + 364 + 66066) x weekly patterns {7 distinct days, 5+2, one day x7, 1+1+5} per period (all 4^k combinations; 4 fixed combinations for 3 periods in quick), the 12 calendar months and all 2^11 merges of adjacent months: day n takes slot n mod 7 of its period's week, and for every 16th case the history expand -> weekly schedules edited in place (also on a clone) -> expand; (b) BDL SCHEDULE-PD / WEEK-SCHEDULE-PD / DAY-SCHEDULE-PD documents through Data::new + Model::try_from: every end date 1..365, every pair (d,31 Dec), every triple (a,b,31 Dec) (every 11th in quick), all 3^7 weekly name lists, daily lists of 24 and of 1 value: period lengths from a calendar table, runs cover 7 days, 24 values, weekday alignment; (c) occupancy on 1..3 spaces x kind x inside x multiplier x all set partitions of schedule sharing x daily profiles {zero, one, morning, evening, 1e-6, negative} (4..6 spaces: star/chain): (the last of two or more loads definitions has lighting and equipment but no occupancy schedule): occupied hours = count of hours with any non-zero occupancy, mean load = area-weighted mean of schedule-averaged loads; all cases distinct by construction",
         true,
         json!({}),
     )
